@@ -3,6 +3,7 @@ import Tw.Proofs.Demo
 import Tw.Model.DemoHl
 import Tw.Proofs.DemoHl
 import Tw.Proofs.DemoHistory
+import Tw.Proofs.DemoTotal
 import Tw.Gen.Demo
 
 /-!
@@ -356,6 +357,27 @@ theorem large_message_refused (w : DemoWriter) :
     rw [this] at h2
     revert h2; decide
   simp only [DemoWriter.writeMsg, h1, if_false, h2, not_false_eq_true, if_true]
+
+/-! ## (6) the readers are total on arbitrary bytes -/
+
+/-- The low-level reader on **arbitrary** file bytes: it refuses the header, or returns chunks,
+warnings and at most one of its own errors; the fuel of the model's loops (`read_int` loop of the
+message branch, Huffman decoder, `read_chunk` loop) always suffices (`diverge` is impossible), and a
+returned chunk has used at least one byte of the file.  (The model of `Reader` has no panic outcome:
+its only slice index, `self.raw[..size]`, is bounded by the 16-bit size field.) -/
+theorem reader_total (file : List UInt8) (r : Reader) :
+    (∀ h cs ws, readFile file ≠ some (h, cs, ws, some .diverge))
+    ∧ (∀ r' ws, r.readChunk ≠ (r', .error .diverge, ws))
+    ∧ (∀ r' c ws, r.readChunk = (r', .chunk c, ws) → r'.data.length < r.data.length) :=
+  ⟨readFile_no_diverge file, (readChunk_total r).1, (readChunk_total r).2⟩
+
+/-- The high-level reader on **arbitrary** file bytes never panics (`Snap::read`, `Delta::read`,
+`read_with_delta`, the object iteration) and never runs out of fuel. -/
+theorem demo_reader_total (objSize : Nat → Option Nat) (file : List UInt8) (h : HeaderInfo) (cs : List HChunk)
+    (ws : List HWarning) :
+    readFileHl objSize file ≠ some (h, cs, ws, some .panic)
+    ∧ readFileHl objSize file ≠ some (h, cs, ws, some (.inner .diverge)) :=
+  readFileHl_total objSize file h cs ws
 
 /-! ## non-vacuity -/
 
